@@ -139,52 +139,72 @@ Theorem C08_multi_partial : forall (cs : list scfg) (ns : list N) (scheds : list
 Proof. exact multi_given_concat. Qed.
 Print Assumptions C08_multi_partial.
 
-(* The concatenator's saving, proved from its bit-level specification (spec/ConcatSpec.concat_spec,
+(* The same with the width of the window field kept: 6 + ceil((WBITS + 20) / 8) bytes of allowance. *)
+Theorem C08_part_w : forall c n bs final_empty t,
+  scfg_ok c = true -> s_magic c = false -> n < 2 ^ 62 -> schedule_ok c n bs final_empty = true ->
+  stream_bytes c n bs final_empty = Some t -> t <= n + 4 * (n / 2 ^ 14) + 6 + (s_wbits c + 27) / 8.
+Proof. exact part_within_allowance_w. Qed.
+Print Assumptions C08_part_w.
+
+(* The concatenator's seams, proved from its bit-level specification (spec/ConcatSpec.concat_spec,
    which the real concatenator follows for every slicing: C03_bits_any_slicing): stitching a first
-   stream of at least 5 bytes and any number of parts of the workers' shape (14-bit window field,
-   20-bit header of the stored catable block) saves at least 15 bits per seam. *)
-Theorem C08_concat_saving : forall m0 rest expected,
-  (5 <= length m0)%nat -> Forall Concat_length.catable_part rest ->
+   stream of at least 5 bytes and any number of parts of the workers' shape (window field of
+   wl = 1, 4, 7 or 14 bits, then the 20-bit header of the stored catable block): every later part
+   loses its ceil((wl + 20) / 8) source bytes of window field + header and regains at most 20
+   header bits and 7 padding bits, less the 2-bit end marker of the part before it. *)
+Theorem C08_concat_saving : forall wl m0 rest expected, Concat_length.wl_ok wl ->
+  (5 <= length m0)%nat -> Forall (Concat_length.catable_part wl) rest ->
   ConcatSpec.concat_spec None (m0 :: rest) = Some expected ->
-  (8 * length expected + 15 * length rest <= 8 * Concat_length.sum_length (m0 :: rest) + 7)%nat.
+  (8 * length expected + 8 * Concat_length.src_bytes wl * length rest
+   <= 8 * Concat_length.sum_length (m0 :: rest) + 25 * length rest + 7)%nat.
 Proof. exact Concat_length.concat_len_catable. Qed.
 Print Assumptions C08_concat_saving.
 
-(* The multi-threaded bound: any split of the input into up to 22 parts (MAX_THREADS is 16), each
-   compressed by its own worker under any meta-block schedule into a byte string of the accounted
-   length, stitched as the concatenator's specification prescribes: the result fits
-   BrotliEncoderMaxCompressedSizeMulti.  Visible hypotheses on the worker streams, NOT proved of
-   CompressMulti (they are facts about the bytes the real workers write; the real multi-threaded
-   output is checked against the bound on every run): no magic header, and every part after the
-   first begins with the 14-bit window field and the 20-bit stored header (catable_part). *)
-Theorem C08_multi : forall (cs : list scfg) (ns : list N) (scheds : list (list mblock * bool)) m0 rest expected,
-  length cs = length ns -> length scheds = length ns -> length (m0 :: rest) = length ns ->
+(* The multi-threaded bound: any split of the input into up to 22 parts (MAX_THREADS is 16), the
+   first compressed under any configuration without magic header, the others by workers whose
+   streams begin with a window field of wl bits and the stored catable block, each under any
+   meta-block schedule into a byte string of the accounted length, stitched as the
+   concatenator's specification prescribes: the result fits BrotliEncoderMaxCompressedSizeMulti.
+   Visible hypotheses on the streams, NOT proved of CompressMulti (facts about the bytes the real
+   workers write): no magic header in any part (compress_part clears it for the later parts; a
+   first part WITH magic header is outside this theorem), and the shape of the later parts' first
+   bits (catable_part).  The C02/C06 runs call the real CompressMulti with a buffer of exactly the
+   Multi bound, with and without the magic header. *)
+Theorem C08_multi : forall wl c0 n0 bs0 fe0 m0 (cs : list scfg) (ns : list N) (scheds : list (list mblock * bool)) rest expected,
+  Concat_length.wl_ok wl ->
+  scfg_ok c0 = true -> s_magic c0 = false -> schedule_ok c0 n0 bs0 fe0 = true ->
+  stream_bytes c0 n0 bs0 fe0 = Some (Concat.lenN m0) ->
+  length cs = length ns -> length scheds = length ns -> length rest = length ns ->
   (forall i c n bs fe m, nth_error cs i = Some c -> nth_error ns i = Some n ->
-     nth_error scheds i = Some (bs, fe) -> nth_error (m0 :: rest) i = Some m ->
-     scfg_ok c = true /\ s_magic c = false /\ schedule_ok c n bs fe = true
+     nth_error scheds i = Some (bs, fe) -> nth_error rest i = Some m ->
+     scfg_ok c = true /\ s_magic c = false /\ s_wbits c = wl /\ schedule_ok c n bs fe = true
      /\ stream_bytes c n bs fe = Some (Concat.lenN m)) ->
-  0 < sumN ns -> sumN ns < 2 ^ 62 -> N.of_nat (length ns) <= 22 ->
-  (5 <= length m0)%nat -> Forall Concat_length.catable_part rest ->
+  0 < n0 + sumN ns -> n0 + sumN ns < 2 ^ 62 -> N.of_nat (length ns) + 1 <= 22 ->
+  (5 <= length m0)%nat -> Forall (Concat_length.catable_part wl) rest ->
   ConcatSpec.concat_spec None (m0 :: rest) = Some expected ->
-  exists B, max_compressed_size_multi (sumN ns) (N.of_nat (length ns)) = Ok B /\ Concat.lenN expected <= B.
-Proof. exact multi_stitched. Qed.
+  exists B, max_compressed_size_multi (n0 + sumN ns) (N.of_nat (length ns) + 1) = Ok B /\ Concat.lenN expected <= B.
+Proof. exact multi_stitched_w. Qed.
 Print Assumptions C08_multi.
 
-(* NOT PROVED (kept as a statement): the same for any number of parts.  With the byte-level
-   accounting above (11 bytes of allowance per part against 8 bytes per thread in the Multi bound
-   plus 15 bits saved per seam) the margin is exhausted at 23 parts; a bit-level accounting of the
-   final empty meta-block would be needed beyond. *)
+(* NOT PROVED (kept as a statement): the same for any number of parts and for a first part with
+   the magic header.  With the byte-level accounting above (6 bytes + 25 bits per later part
+   against 8 bytes per thread, 11 bytes for the first part against the formula's 27) the margin
+   is exhausted at 23 parts, and at 7 parts when the first part carries the magic header; a
+   bit-level accounting of the last partial block and the final empty meta-block would be needed. *)
 Definition C08_multi_stmt : Prop :=
-  forall (cs : list scfg) (ns : list N) (scheds : list (list mblock * bool)) m0 rest expected,
-  length cs = length ns -> length scheds = length ns -> length (m0 :: rest) = length ns ->
+  forall wl c0 n0 bs0 fe0 m0 (cs : list scfg) (ns : list N) (scheds : list (list mblock * bool)) rest expected,
+  Concat_length.wl_ok wl ->
+  scfg_ok c0 = true -> schedule_ok c0 n0 bs0 fe0 = true ->
+  stream_bytes c0 n0 bs0 fe0 = Some (Concat.lenN m0) ->
+  length cs = length ns -> length scheds = length ns -> length rest = length ns ->
   (forall i c n bs fe m, nth_error cs i = Some c -> nth_error ns i = Some n ->
-     nth_error scheds i = Some (bs, fe) -> nth_error (m0 :: rest) i = Some m ->
-     scfg_ok c = true /\ s_magic c = false /\ schedule_ok c n bs fe = true
+     nth_error scheds i = Some (bs, fe) -> nth_error rest i = Some m ->
+     scfg_ok c = true /\ s_magic c = false /\ s_wbits c = wl /\ schedule_ok c n bs fe = true
      /\ stream_bytes c n bs fe = Some (Concat.lenN m)) ->
-  0 < sumN ns -> sumN ns < 2 ^ 62 -> N.of_nat (length ns) < 2 ^ 32 ->
-  (5 <= length m0)%nat -> Forall Concat_length.catable_part rest ->
+  0 < n0 + sumN ns -> n0 + sumN ns < 2 ^ 62 -> N.of_nat (length ns) + 1 < 2 ^ 32 ->
+  (5 <= length m0)%nat -> Forall (Concat_length.catable_part wl) rest ->
   ConcatSpec.concat_spec None (m0 :: rest) = Some expected ->
-  exists B, max_compressed_size_multi (sumN ns) (N.of_nat (length ns)) = Ok B /\ Concat.lenN expected <= B.
+  exists B, max_compressed_size_multi (n0 + sumN ns) (N.of_nat (length ns) + 1) = Ok B /\ Concat.lenN expected <= B.
 
 (* Non-vacuity: concrete points of every theorem's domain. *)
 Example C08_points :
